@@ -60,6 +60,7 @@ Record SInv (w : sid) (s : store) (tr : list event) : Prop := mkSInv {
       count_key w ERelease k tr = count_key w EAlloc k tr + count_key w ERetain k tr
       /\ count_key w EFree k tr = count_key w EAlloc k tr /\ count_key w EAlloc k tr <= 1;
   si_bound : forall k, 1 <= count_key w EAlloc k tr -> bound s k;
+  si_freed : forall k, 1 <= count_key w EFree k tr -> stale s k = true;
   si_len : sm_len s + count_op w EFree tr = count_op w EAlloc tr
 }.
 
@@ -83,9 +84,10 @@ Proof. split; apply sinv_new. Qed.
 Lemma sinv_keep : forall w s tr e,
   SInv w s tr -> (forall o k, cnt w o k e = 0) -> (forall o, cnt_op w o e = 0) -> SInv w s (tr ++ [e]).
 Proof.
-  intros w s tr e [Hwf Hs Hn Hb Hl] Hc Hco. constructor; auto.
+  intros w s tr e [Hwf Hs Hn Hb Hfr Hl] Hc Hco. constructor; auto.
   - intros k o Hg. rewrite !count_key_snoc, !Hc, !N.add_0_r. auto.
   - intros k Hg. rewrite !count_key_snoc, !Hc, !N.add_0_r. auto.
+  - intros k. rewrite count_key_snoc, Hc, N.add_0_r. auto.
   - intros k. rewrite count_key_snoc, Hc, N.add_0_r. auto.
   - rewrite !count_op_snoc, !Hco, !N.add_0_r. assumption.
 Qed.
@@ -105,7 +107,7 @@ Lemma sinv_set : forall w s tr e k0 ob ob' dT dR,
   orc ob' + dR = orc ob + dT ->
   SInv w (sm_set s k0 ob') (tr ++ [e]).
 Proof.
-  intros w s tr e k0 ob ob' dT dR [Hwf Hs Hn Hb Hl] Hg Hst Hk HcA HcF HcT HcR HoA HoF Hrc.
+  intros w s tr e k0 ob ob' dT dR [Hwf Hs Hn Hb Hfr Hl] Hg Hst Hk HcA HcF HcT HcR HoA HoF Hrc.
   assert (Hoth : forall o k, k <> k0 -> cnt w o k e = 0) by (intros; apply cnt_other_key; congruence).
   constructor.
   - eapply set_wf; eauto.
@@ -121,6 +123,10 @@ Proof.
   - intros k Hk1. apply set_bound_mono. apply Hb. rewrite count_key_snoc in Hk1.
     destruct (key_eqb k k0) eqn:E.
     + apply key_eqb_eq in E; subst k. rewrite HcA in Hk1. lia.
+    + apply key_eqb_neq in E. rewrite Hoth in Hk1 by assumption. lia.
+  - intros k Hk1. apply set_stale_mono. apply Hfr. rewrite count_key_snoc in Hk1.
+    destruct (key_eqb k k0) eqn:E.
+    + apply key_eqb_eq in E; subst k. rewrite HcF in Hk1. lia.
     + apply key_eqb_neq in E. rewrite Hoth in Hk1 by assumption. lia.
   - rewrite set_len, !count_op_snoc, HoA, HoF. lia.
 Qed.
@@ -159,7 +165,7 @@ Proof.
     destruct (key_eqb k k0 && orc_eqb rc 1) eqn:Ec; [|discriminate]. inversion Hstep; subst m'; clear Hstep.
     apply andb_true_iff in Ec; destruct Ec as [Ek _]. apply key_eqb_eq in Ek; subst k0.
     rewrite get_set_store_same.
-    destruct HIw as [Hwf Hs Hn Hb Hl].
+    destruct HIw as [Hwf Hs Hn Hb Hfr Hl].
     assert (Hs1 : s1 = fst (sm_insert s (mkObj 1 false []))) by (rewrite Hins; reflexivity).
     assert (Hk0 : k = snd (sm_insert s (mkObj 1 false []))) by (rewrite Hins; reflexivity).
     assert (Hfresh : sm_get s k = None) by (rewrite Hk0; apply insert_fresh; assumption).
@@ -190,6 +196,10 @@ Proof.
     + intros k' Hk1. rewrite count_key_snoc in Hk1. destruct (key_eqb k' k) eqn:E.
       * apply key_eqb_eq in E; subst k'. rewrite Hs1, Hk0. apply insert_new_bound.
       * apply key_eqb_neq in E. rewrite Hoth in Hk1 by assumption. rewrite Hs1. apply insert_bound_mono. apply Hb; lia.
+    + intros k' Hk1. rewrite count_key_snoc in Hk1. rewrite Hs1. apply insert_stale_mono. apply Hfr.
+      destruct (key_eqb k' k) eqn:E.
+      * apply key_eqb_eq in E; subst k'. rewrite HcF in Hk1. lia.
+      * apply key_eqb_neq in E. rewrite Hoth in Hk1 by assumption. lia.
     + rewrite Hs1, insert_len, !count_op_snoc.
       assert (H1 : cnt_op w EAlloc e = 1) by (subst e; ev_simpl).
       assert (H2 : cnt_op w EFree e = 0) by (subst e; ev_simpl).
@@ -209,7 +219,7 @@ Proof.
     destruct (sm_get s k) as [ob|] eqn:Hg; [|discriminate].
     destruct (orc ob =? 0) eqn:Ez; [|discriminate]. apply N.eqb_eq in Ez.
     inversion Hstep; subst m'; clear Hstep. rewrite get_set_store_same.
-    destruct HIw as [Hwf Hs Hn Hb Hl].
+    destruct HIw as [Hwf Hs Hn Hb Hfr Hl].
     assert (Hother : forall k', k' <> k -> sm_get (fst (sm_remove s k)) k' = sm_get s k')
       by (intros; eapply remove_get_other; eauto).
     assert (Hgone : sm_get (fst (sm_remove s k)) k = None) by (eapply remove_get_same; eauto).
@@ -234,6 +244,9 @@ Proof.
       destruct (key_eqb k' k) eqn:E.
       * apply key_eqb_eq in E; subst k'. rewrite HcA in Hk1. lia.
       * apply key_eqb_neq in E. rewrite Hoth in Hk1 by assumption. lia.
+    + intros k' Hk1. rewrite count_key_snoc in Hk1. destruct (key_eqb k' k) eqn:E.
+      * apply key_eqb_eq in E; subst k'. eapply remove_stale_self; eauto.
+      * apply key_eqb_neq in E. rewrite Hoth in Hk1 by assumption. apply remove_stale_mono. apply Hfr. lia.
     + rewrite !count_op_snoc.
       assert (H1 : cnt_op w EAlloc e = 0) by (subst e; ev_simpl).
       assert (H2 : cnt_op w EFree e = 1) by (subst e; ev_simpl).
@@ -246,7 +259,8 @@ Proof.
     destruct (sm_get s k) as [ob|] eqn:Hg; destruct rc as [r|]; try discriminate.
     + destruct (r =? orc ob); [|discriminate]. inversion Hstep; subst m'.
       apply sinv_keep; auto; intros; ev_simpl; destruct o; ev_simpl.
-    + inversion Hstep; subst m'. apply sinv_keep; auto; intros; ev_simpl; destruct o; ev_simpl.
+    + destruct (stale s k); [discriminate|]. inversion Hstep; subst m'.
+      apply sinv_keep; auto; intros; ev_simpl; destruct o; ev_simpl.
   - (* close *)
     destruct (sm_get s k) as [ob|] eqn:Hg; [|discriminate].
     destruct ((1 <=? orc ob) && orc_eqb rc (orc ob)) eqn:Ec; [|discriminate].
@@ -309,6 +323,8 @@ Theorem no_uaf_balanced : forall tr, balanced tr = true ->
        /\ (e_op e <> EFree ->
            count_key (e_store e) ERelease (e_key e) tr1
            < count_key (e_store e) EAlloc (e_key e) tr1 + count_key (e_store e) ERetain (e_key e) tr1))
+  /\ (forall tr1 e tr2, tr = tr1 ++ e :: tr2 -> e_op e = EProbe ->
+        count_key (e_store e) EFree (e_key e) tr1 = 0)
   /\ (forall tr1 tr2 w k, tr = tr1 ++ tr2 ->
         count_key w ERelease k tr1 <= count_key w EAlloc k tr1 + count_key w ERetain k tr1
         /\ count_key w EAlloc k tr1 <= 1)
@@ -319,7 +335,7 @@ Theorem no_uaf_balanced : forall tr, balanced tr = true ->
 Proof.
   intros tr Hb. unfold balanced, balanced_from in Hb.
   destruct (mrun mach_new tr) as [m|] eqn:Hrun; [|discriminate].
-  split; [|split].
+  split; [|split; [|split]].
   - intros tr1 e tr2 -> Ht. rewrite mrun_app in Hrun.
     destruct (mrun mach_new tr1) as [m1|] eqn:H1; [|discriminate]. cbn [mrun] in Hrun.
     destruct (mstep m1 e) as [m2|] eqn:H2; [|discriminate].
@@ -329,6 +345,18 @@ Proof.
     destruct (si_some _ _ _ (minv_store _ _ (e_store e) HI) _ _ Hg) as (Hc & HA & HF).
     unfold live. rewrite Hg. repeat split; auto.
     intros Hne. specialize (Hpos Hne). lia.
+  - intros tr1 e tr2 -> Hp. rewrite mrun_app in Hrun.
+    destruct (mrun mach_new tr1) as [m1|] eqn:H1; [|discriminate]. cbn [mrun] in Hrun.
+    destruct (mstep m1 e) as [m2|] eqn:H2; [|discriminate].
+    pose proof (mrun_inv _ _ _ _ minv_new H1) as HI. cbn [app] in HI.
+    pose proof (minv_store _ _ (e_store e) HI) as HIw.
+    destruct e as [st op k rc]. cbn [e_store e_op e_key] in *. subst op.
+    unfold mstep in H2. cbn [e_store e_op e_key e_rc] in H2.
+    destruct (sm_get (get_store m1 st) k) as [o|] eqn:Hg.
+    + destruct (si_some _ _ _ HIw _ _ Hg) as (_ & _ & HF). exact HF.
+    + destruct rc; [discriminate|]. destruct (stale (get_store m1 st) k) eqn:Est; [discriminate|].
+      destruct (N.eq_dec (count_key st EFree k tr1) 0) as [|Hnz]; [assumption|].
+      exfalso. assert (Hst : stale (get_store m1 st) k = true) by (apply (si_freed _ _ _ HIw); lia). congruence.
   - intros tr1 tr2 w k ->. rewrite mrun_app in Hrun.
     destruct (mrun mach_new tr1) as [m1|] eqn:H1; [|discriminate].
     pose proof (mrun_inv _ _ _ _ minv_new H1) as HI. cbn [app] in HI.
